@@ -6,7 +6,7 @@
    stdout/stderr) for the seed and the derived scalar in raw / hex / base64 form is the tie. *)
 Require Import RV.Model.Bytes RV.Gen.Tables RV.Gen.Sites RV.Model.Keys RV.Model.Server RV.Model.SiteMap
         RV.Spec.ProcessGoals.
-Require Import RV.Proofs.ProcessFacts RV.Proofs.SitesFacts.
+Require Import RV.Proofs.ProcessFacts RV.Proofs.SitesLog.
 From Coq Require Import List String.
 
 (* the seed influences the server ONLY through the public key and the signatures made with it: two
@@ -32,7 +32,7 @@ Print Assumptions C20_log_sites_reviewed.
    (private constants, bounds, unit factors; the files are SiteMap.files_C20) are today the ones the
    model was written against. Gen/Sites.v num_literals is regenerated from /repo on every run; a
    changed, added or removed number in a modelled function breaks this obligation ---- *)
-Require RV.Gen.Sites RV.Model.SiteMap RV.Proofs.SitesFacts.
+Require RV.Gen.Sites RV.Model.SiteMap RV.Proofs.SitesLits.
 Theorem C20_literals_reviewed : RV.Model.SiteMap.literals_ok RV.Model.SiteMap.files_C20.
-Proof. apply RV.Proofs.SitesFacts.literals_okb_sound. vm_compute. reflexivity. Qed.
+Proof. apply RV.Proofs.SitesLits.literals_okb_sound. vm_compute. reflexivity. Qed.
 Print Assumptions C20_literals_reviewed.
